@@ -23,8 +23,41 @@ def cfg_dir():
     return os.path.join(VERIF, "cfg")
 
 
+def gen_rsc(dest):
+    """message-number headers (<tool>.rsc) regenerated from the .res files of the current tree: rescomp numbers the
+    'Message' entries in order of appearance, 'Include' files first-come (checked against a cmake build: identical
+    numbering for all ten catalogues).  Keeps the checks independent of a possibly stale /repo/_build."""
+    os.makedirs(dest, exist_ok=True)
+    def msgs(f, depth=0):
+        out = []
+        path = os.path.join(REPO, f)
+        if depth > 8 or not os.path.exists(path):
+            return out
+        for ln in open(path, encoding="latin-1"):
+            m = re.match(r"\s*Include\s+(\S+)", ln)
+            if m:
+                out += msgs(m.group(1), depth + 1)
+                continue
+            m = re.match(r"\s*Message\s+(\S+)", ln)
+            if m:
+                out.append(m.group(1))
+        return out
+    for f in sorted(os.listdir(REPO)):
+        if not f.endswith(".res"):
+            continue
+        n = f[:-4]
+        g = "_VERIF_GEN_%s_RSC" % n.upper()
+        txt = "#ifndef %s\n#define %s\n#define MsgId1 1\n#define MsgId2 2\n" % (g, g)
+        txt += "".join("#define Num_%s %d\n" % (m, i) for i, m in enumerate(msgs(f)))
+        txt += "#endif\n"
+        with open(os.path.join(dest, n + ".rsc"), "w") as fh:
+            fh.write(txt)
+    return dest
+
+
 def cflags(scratch):
-    return ["-I" + scratch, "-I" + STUBS, "-I" + REPO, "-I" + cfg_dir(),
+    rsc = os.path.join(os.path.dirname(scratch.rstrip("/")), "_rsc")      # generated once per run (Run.__init__)
+    return ["-I" + scratch, "-I" + rsc, "-I" + STUBS, "-I" + REPO, "-I" + cfg_dir(),
             '-DLIBDIR="/usr/local/lib/asl"', "-std=gnu11", "-DNDEBUG", "-DASL_VERIF"]
 
 
@@ -81,6 +114,7 @@ class Run:
     def __init__(self, prop, tier, seed):
         self.prop, self.tier, self.seed = prop, tier, seed
         self.scratch = tempfile.mkdtemp(prefix="verif_%s_" % prop, dir=SCRATCH_BASE)
+        gen_rsc(os.path.join(self.scratch, "_rsc"))
         self.lock = threading.Lock()
         self.cache = {}
         self.t0 = time.time()
